@@ -4,6 +4,7 @@
 mod ex;
 mod c01;
 mod c06;
+mod c12;
 
 fn main() {
     ex::install_panic_hook();
@@ -17,6 +18,7 @@ fn main() {
         "c01" => c01::run(rest),
         "c13" => c01::run_c13(rest),
         "c06" => c06::run(rest),
+        "c12" => c12::run(rest),
         other => {
             eprintln!("unknown command {other}");
             std::process::exit(2);
